@@ -22,43 +22,10 @@ FILL = 'mininec.Mininec.compute_impedance_matrix'
 HELPER = 'mininec.Mininec.nf_helper'
 
 
-def run(ctx, ck):
+def check_add_conn(ctx, ck, rule='R-SIB.add-conn'):
+    """_add_conn registers a junction in both directions on every path, with the sign of the end numbers (shared
+    with C12: a junction that is silently not registered loses its pulse)"""
     m = ctx.model
-    # a cached value is not taken while what it is computed from is still being filled
-    ck.rule('R-CACHE.read-while-built', 'no cached_property is read by code from which its sources are still being filled in place')
-    from ..cache import cached_read_while_built
-    hz_, n_cp = cached_read_while_built(ctx)
-    for g_, rf_, ms_ in hz_:
-        ck.ob('R-CACHE.read-while-built', '%s|%s' % (g_.qual, rf_.qual), False, rf_.loc(),
-              '%s reads the cached %s while %s (reachable from it) still fills the collections it is computed from: '
-              'what is added later never shows up in the cached value' % (rf_.qual, g_.qual, ms_[0]))
-    ck.ob('R-CACHE.read-while-built', 'package', True, 'mininec', '%d cached properties examined' % n_cp)
-    ck.floor('cached properties', n_cp, 10)
-    if hz_:
-        return      # (the rules below would only report that they cannot follow the construction any more)
-    ck.rule('R-HALF.coherent-product', 'a product never combines quantities of different halves')
-    ck.rule('R-HALF.potential-half', 'psi is given the scale of the half whose geometry it integrates')
-    ck.rule('R-HALF.complete-term', 'each vector-potential term = potential*sign*direction*ground-sign of one half')
-    ck.rule('R-HALF.difference-length', 'scalar-potential difference / segment length of its own half')
-    ck.rule('R-SIB.junction-accumulate', 'junction current of each end = sum over conn[K] (both ends alike)')
-    ck.rule('R-CACHE.owner-only', 'per-object cache computed from the object it is stored on')
-    ck.rule('R-SIB.add-conn', '_add_conn registers both directions; junction pulse signs from both indices')
-
-    # (the near field too: which half of a pulse is the 'upper' one depends on how the wires are written down)
-    NF = 'mininec.Mininec.compute_near_field'
-    cnt = half_obligations(ctx, ck, [FILL, HELPER, NF, 'mininec.Mininec.psi_near_field_56'], want_sums=(FILL, HELPER),
-                           want_divs=(FILL, NF), sym_funcs=('mininec.Mininec.psi_near_field_56',))
-    ck.info('half_counts', cnt)
-    # (a term reported above for lacking factors has that many products fewer: not a lost anchor)
-    ck.floor('per-half products', cnt['products'] + cnt['missing_factors'], 14)
-    ck.floor('vector-potential sums', cnt['sums'], 2)
-
-    check_junction_accumulate(ctx, ck)
-
-    sites, n = run_cache_rule(ctx, ck, only={('*', 'zins'),
-                                             ('*', 'zint')})
-    ck.floor('per-object caches', n, 2)
-
     # D4 - on the symbolic walk of _add_conn (temporaries, conditional expressions and table lookups
     # resolved): both directions are registered, the sign is -1 exactly when the two joined ends
     # have the same end number
@@ -112,14 +79,54 @@ def run(ctx, ck):
         if not shape_ok:
             both[-1] = (False, ['%s(%s)' % (norm(c.func), ', '.join(norm(a) for a in c.args)) for c in adds])
     ok = all(b_[0] for b_ in both)
-    ck.ob('R-SIB.add-conn', f.qual + '|both-directions', ok, f.loc(),
+    ck.ob(rule, f.qual + '|both-directions', ok, f.loc(),
           'connection added to %s' % sorted({tuple(b_[1]) for b_ in both}))
     want = {(w_, sm): {'-1' if sm else '1'} for w_ in ('entry sign at the other object', 'index sign at the other object',
                                                         'index sign at this object') for sm in (True, False)}
     ok = signs == want
-    ck.ob('R-SIB.add-conn', f.qual + '|sign', ok, f.loc(),
+    ck.ob(rule, f.qual + '|sign', ok, f.loc(),
           'sign is -1 when both ends have the same number and 1 otherwise' if ok else
           'signs (which, same end number) -> value: %s' % {('%s, %s' % k_): sorted(v_) for k_, v_ in sorted(signs.items())})
+
+
+def run(ctx, ck):
+    m = ctx.model
+    # a cached value is not taken while what it is computed from is still being filled
+    ck.rule('R-CACHE.read-while-built', 'no cached_property is read by code from which its sources are still being filled in place')
+    from ..cache import cached_read_while_built
+    hz_, n_cp = cached_read_while_built(ctx)
+    for g_, rf_, ms_ in hz_:
+        ck.ob('R-CACHE.read-while-built', '%s|%s' % (g_.qual, rf_.qual), False, rf_.loc(),
+              '%s reads the cached %s while %s (reachable from it) still fills the collections it is computed from: '
+              'what is added later never shows up in the cached value' % (rf_.qual, g_.qual, ms_[0]))
+    ck.ob('R-CACHE.read-while-built', 'package', True, 'mininec', '%d cached properties examined' % n_cp)
+    ck.floor('cached properties', n_cp, 10)
+    if hz_:
+        return      # (the rules below would only report that they cannot follow the construction any more)
+    ck.rule('R-HALF.coherent-product', 'a product never combines quantities of different halves')
+    ck.rule('R-HALF.potential-half', 'psi is given the scale of the half whose geometry it integrates')
+    ck.rule('R-HALF.complete-term', 'each vector-potential term = potential*sign*direction*ground-sign of one half')
+    ck.rule('R-HALF.difference-length', 'scalar-potential difference / segment length of its own half')
+    ck.rule('R-SIB.junction-accumulate', 'junction current of each end = sum over conn[K] (both ends alike)')
+    ck.rule('R-CACHE.owner-only', 'per-object cache computed from the object it is stored on')
+    ck.rule('R-SIB.add-conn', '_add_conn registers both directions; junction pulse signs from both indices')
+
+    # (the near field too: which half of a pulse is the 'upper' one depends on how the wires are written down)
+    NF = 'mininec.Mininec.compute_near_field'
+    cnt = half_obligations(ctx, ck, [FILL, HELPER, NF, 'mininec.Mininec.psi_near_field_56'], want_sums=(FILL, HELPER),
+                           want_divs=(FILL, NF), sym_funcs=('mininec.Mininec.psi_near_field_56',))
+    ck.info('half_counts', cnt)
+    # (a term reported above for lacking factors has that many products fewer: not a lost anchor)
+    ck.floor('per-half products', cnt['products'] + cnt['missing_factors'], 14)
+    ck.floor('vector-potential sums', cnt['sums'], 2)
+
+    check_junction_accumulate(ctx, ck)
+
+    sites, n = run_cache_rule(ctx, ck, only={('*', 'zins'),
+                                             ('*', 'zint')})
+    ck.floor('per-object caches', n, 2)
+
+    check_add_conn(ctx, ck)
     # junction pulses: sign vector [sign(idx_1), 1] at end 1 and [1, sign(idx_2)] at end 2
     from ._creation import creation_model, creations_of
     g, cpaths = creation_model(ctx)
